@@ -45,6 +45,19 @@ impl Command for CommandImpl {
                 let target_path_str = &context.arguments[1];
 
                 if source_file {
+                    let same_file = match (
+                        fs::canonicalize(source_path_str),
+                        fs::canonicalize(target_path_str),
+                    ) {
+                        (Ok(source), Ok(target)) => source == target,
+                        _ => false,
+                    };
+                    if same_file {
+                        return CommandResult::Error(
+                            "Source and target are the same file.".to_string(),
+                        );
+                    }
+
                     match create_parent(target_path_str) {
                         Ok(_) => match fs::copy(source_path_str, target_path_str) {
                             Ok(_) => CommandResult::Continue(Some("true".to_string())),
